@@ -128,7 +128,7 @@ def evaluate(ctx, cases, stream):
 def run(ctx):
     rng = ctx.rng
     thorough = ctx.tier == 'thorough'
-    label_sets = gl.LABEL_SETS[:3] if thorough else gl.LABEL_SETS[:1]
+    label_sets = gl.LABEL_SETS[:4] if thorough else [gl.LABEL_SETS[0], gl.LABEL_SETS[2]]
     for k in (2, 3, 4):
         cases = []
         for n, edges in enumerate(gl.exhaustive_graphs(k, label_sets)):
